@@ -99,11 +99,12 @@ func poolRules(p *Prog, r *Report, R string) {
 		if ok {
 			ok = false
 			for _, g := range get[0].Guard {
-				if strings.HasPrefix(g, "arg1 < mangos.messageCache[") || strings.HasPrefix(g, "arg1 <= mangos.messageCache[") {
-					if strings.HasSuffix(g, ".maxbody") {
-						// the pool taken is the one whose maxbody was compared
-						idx := g[strings.Index(g, "messageCache["):strings.LastIndex(g, ".maxbody")]
-						if strings.HasPrefix(get[0].Args[0], "mangos."+idx+".pool") {
+				for _, pre := range []string{"arg1 < ", "arg1 <= "} {
+					if strings.HasPrefix(g, pre) && strings.HasSuffix(g, ".maxbody") {
+						// the pool taken is the one whose maxbody was compared: the same cache
+						// entry, named by index (messageCache[i]) or by a range value copy (ci)
+						entry := strings.TrimSuffix(strings.TrimPrefix(g, pre), ".maxbody")
+						if cacheEntryDesc(nm.fn, entry) && strings.HasPrefix(get[0].Args[0], entry+".pool") {
 							ok = true
 						}
 					}
@@ -140,9 +141,9 @@ func poolRules(p *Prog, r *Report, R string) {
 		okc := false
 		if len(put) == 1 {
 			for _, g := range put[0].Guard {
-				if strings.HasPrefix(g, "recv.bsize == mangos.messageCache[") && strings.HasSuffix(g, ".maxbody") {
-					idx := g[strings.Index(g, "messageCache["):strings.LastIndex(g, ".maxbody")]
-					if strings.HasPrefix(put[0].Args[0], "mangos."+idx+".pool") {
+				if strings.HasPrefix(g, "recv.bsize == ") && strings.HasSuffix(g, ".maxbody") {
+					entry := strings.TrimSuffix(strings.TrimPrefix(g, "recv.bsize == "), ".maxbody")
+					if cacheEntryDesc(fr.fn, entry) && strings.HasPrefix(put[0].Args[0], entry+".pool") {
 						okc = true
 					}
 				}
@@ -370,4 +371,28 @@ func backingRoot(v ssa.Value, d int) (ssa.Value, string) {
 		return x, "loop-carried slice"
 	}
 	return nil, Desc(v)
+}
+
+// cacheEntryDesc: desc names one entry of messageCache — `mangos.messageCache[i]`, or a
+// local that holds a copy of the entry the loop is at (`for _, ci := range messageCache`).
+func cacheEntryDesc(fn *ssa.Function, desc string) bool {
+	if strings.HasPrefix(desc, "mangos.messageCache[") {
+		return true
+	}
+	if !strings.HasPrefix(desc, "$") {
+		return false
+	}
+	ok := false
+	EachInstr(fn, func(in ssa.Instruction) {
+		st, isSt := in.(*ssa.Store)
+		if !isSt {
+			return
+		}
+		if al, isAl := st.Addr.(*ssa.Alloc); isAl && "$"+al.Comment == desc {
+			if strings.HasPrefix(Desc(st.Val), "mangos.messageCache[") {
+				ok = true
+			}
+		}
+	})
+	return ok
 }
